@@ -321,6 +321,18 @@ def quote_atom(s):
     return ''.join(out)
 
 
+ALPHA_OPS = {'mod', 'rem', 'is', 'div', 'rdiv', 'xor', 'dynamic', 'discontiguous', 'initialization', 'meta_predicate',
+             'module_transparent', 'multifile', 'public', 'table', 'volatile', 'thread_local', 'thread_initialization', 'as'}
+
+
+def atom_operand(s):
+    """text of an atom in operand/argument position: anything that could be an operator is bracketed"""
+    q = quote_atom(s)
+    if (_PLAIN.match(s) and s not in ALPHA_OPS) or s in ('[]', '{}'):
+        return q
+    return '(' + q + ')'
+
+
 def float_text(x):
     r = repr(float(x))
     if 'inf' in r or 'nan' in r:
@@ -359,7 +371,7 @@ def to_text(t, var_prefix='_G'):
         elif k == 'r':
             out.append('(%d rdiv %d)' % (x[1], x[2]))
         elif k == 'a':
-            out.append(quote_atom(x[1]))
+            out.append(atom_operand(x[1]))
         elif k == 'v':
             out.append(('%s%d' % (var_prefix, x[1])) if isinstance(x[1], int) else x[1])
         elif k == 'c':
@@ -446,3 +458,63 @@ def subst(t, m):
 
 def variant(a, b):
     return rename_canonical(a) == rename_canonical(b)
+
+
+# --------------------------------------------------------------------------
+# varied rendering: the same abstract term written in different concrete syntaxes
+
+def is_char_list(t):
+    return t[0] == 'l' and all(x[0] == 'a' and len(x[1]) == 1 for x in t[1])
+
+
+def dq_string(s):
+    out = ['"']
+    for ch in s:
+        o = ord(ch)
+        if ch == '"':
+            out.append('\\"')
+        elif ch == '\\':
+            out.append('\\\\')
+        elif ch == '\n':
+            out.append('\\n')
+        elif ch == '\t':
+            out.append('\\t')
+        elif o < 0x20 or o == 0x7f:
+            out.append('\\x%x\\' % o)
+        else:
+            out.append(ch)
+    out.append('"')
+    return ''.join(out)
+
+
+def to_text_varied(t, rng, pre=None, p_string=0.5, p_boxed=0.3):
+    """Prolog text of t where proper char lists may be written as "strings", and
+    (when `pre` is a list) integers may be replaced by variables bound by a
+    bignum-passing computation and rationals by variables bound with rdiv; the
+    binding goals are appended to `pre`."""
+    def go(x):
+        k = x[0]
+        if k == 'l':
+            if x[2] == NIL and is_char_list(x) and rng.random() < p_string:
+                return dq_string(''.join(a[1] for a in x[1]))
+            items = ','.join(go(a) for a in x[1])
+            if x[2] != NIL:
+                if is_char_list(x) and x[2][0] == 'v' and False:
+                    pass
+                return '[%s|%s]' % (items, go(x[2]))
+            return '[%s]' % items
+        if k == 'c':
+            return '%s(%s)' % (quote_atom(x[1]), ','.join(go(a) for a in x[2]))
+        if k == 'r':
+            if pre is None:
+                raise ValueError('rational needs a binding goal')
+            v = '_R%d' % len(pre)
+            pre.append('%s is %d rdiv %d' % (v, x[1], x[2]))
+            return v
+        if k == 'i' and pre is not None and rng.random() < p_boxed:
+            v = '_B%d' % len(pre)
+            B = rng.choice([1 << 60, 1 << 64, 10 ** 30])
+            pre.append('%s is %d - %d + %s' % (v, B, B, ('(%d)' % x[1])))
+            return v
+        return to_text(x)
+    return go(t)
